@@ -57,6 +57,153 @@ pub fn same_board(a: &PieceBoardState, b: &PieceBoardState) -> bool {
         && a.rabbits == b.rabbits
 }
 
+/// a state without any heap: the board-level rule functions never look at the phase
+pub fn lean_state(side: bool) -> GameState {
+    GameState::new(side, 2, Phase::PlacePhase, PieceBoard::initial(), Zobrist::initial())
+}
+
+// ===========================================================================
+// Layer 0 / 1.  Two forms of the same kind of statement:
+//  * in-place Kani function contracts (contracts/engine.contracts, woven above the real fn),
+//    proved with proof_for_contract, re-usable by callers through stub_verified.  Measured:
+//    a woven contract makes *every* harness that calls the function pay for the contract
+//    closures, so each obligation names the contracts it needs (`@uses`) and the weaver
+//    builds one copy of the crate per distinct set.
+//  * harness-contracts: assume pre / call the real fn / assert post, with the universally
+//    quantified square as a symbolic input.  Loop-free, inputs fully symbolic: complete.
+// ===========================================================================
+// @obl props=C01,C02,C10,C11,C19 tier=quick kind=contract mem=2 est=10
+// @uses supported_pieces
+// @fns supported_pieces
+// @clause ensures forall i: bit(r,i) <=> bit(x,i) && some orthogonal neighbour of i (by file/rank arithmetic, no wrap-around) is in x
+#[kani::proof_for_contract(supported_pieces)]
+fn k_supported_pieces() {
+    kani::cover!(true);
+    supported_pieces(kani::any());
+}
+// @obl props=C01,C19 tier=quick kind=contract mem=4 est=90
+// @uses GameState::threatened_pieces
+// @fns GameState::threatened_pieces influenced_squares
+// @clause requires board_wf ensures forall i: bit(r,i) <=> i in prey mask, holds a piece, and a strictly stronger piece inside the predator mask is orthogonally adjacent
+#[kani::proof_for_contract(GameState::threatened_pieces)]
+fn k_threatened_pieces() {
+    let gs = lean_state(kani::any());
+    let pb = any_board_raw();
+    kani::cover!(board_wf(&pb));
+    gs.threatened_pieces(kani::any(), kani::any(), &pb);
+}
+// @obl props=C01 tier=quick kind=contract mem=2 est=10
+// @uses GameState::opponent_piece_mask
+// @fns GameState::opponent_piece_mask
+// @clause requires board_wf ensures forall i: bit(r,i) <=> at(pb,i) is a piece of the opponent
+#[kani::proof_for_contract(GameState::opponent_piece_mask)]
+fn k_opponent_piece_mask() {
+    let gs = lean_state(kani::any());
+    let pb = any_board_raw();
+    kani::cover!(board_wf(&pb));
+    gs.opponent_piece_mask(&pb);
+}
+// @obl props=C01 tier=thorough kind=contract mem=20 est=600 timeout=3000
+// @uses GameState::curr_player_non_frozen_pieces GameState::threatened_pieces supported_pieces GameState::opponent_piece_mask
+// @fns GameState::curr_player_non_frozen_pieces
+// @clause in-place contract of curr_player_non_frozen_pieces (64-way) with the caller checked against the CONTRACTS of threatened_pieces, supported_pieces, opponent_piece_mask only (stub_verified), not their bodies
+#[kani::proof_for_contract(GameState::curr_player_non_frozen_pieces)]
+#[kani::stub_verified(GameState::threatened_pieces)]
+#[kani::stub_verified(supported_pieces)]
+#[kani::stub_verified(GameState::opponent_piece_mask)]
+fn k_curr_player_non_frozen_pieces_modular() {
+    let gs = lean_state(kani::any());
+    let pb = any_board_raw();
+    kani::cover!(board_wf(&pb));
+    gs.curr_player_non_frozen_pieces(&pb);
+}
+
+// @obl props=C01,C07,C12,C19 tier=quick kind=harness-contract mem=3 est=20
+// @fns GameState::curr_player_non_frozen_pieces GameState::threatened_pieces supported_pieces GameState::opponent_piece_mask influenced_squares
+// @clause requires board_wf ensures forall i: bit(r,i) <=> a piece of the mover stands on i and is not frozen (no stronger enemy adjacent, or a friend adjacent)
+#[kani::proof]
+fn k_curr_player_non_frozen_pieces() {
+    let side: bool = kani::any();
+    let gs = lean_state(side);
+    let pb = any_wf_board();
+    let i = any_sq();
+    kani::cover!(frozen(&pb, i));
+    let r = gs.curr_player_non_frozen_pieces(&pb);
+    let mine = match at(&pb, i) {
+        Some((_, g)) => g == side,
+        None => false,
+    };
+    assert!(bit(r, i) == (mine && !frozen(&pb, i)), "C01: non-frozen mask = own pieces that are not frozen");
+}
+// @obl props=C01,C11,C19 tier=quick kind=harness-contract mem=2 est=5
+// @fns influenced_squares shift_pieces_in_direction shift_pieces_in_opp_direction shift_in_direction can_move_in_direction
+// @clause forall i,d,x: influenced_squares / shift_pieces_in_direction / shift_pieces_in_opp_direction / can_move_in_direction agree with neighbour arithmetic on file and rank (edge masks prevent wrap-around); shift_in_direction moves a single bit to nbr(i,d) when that exists
+#[kani::proof]
+fn k_shifts() {
+    let x: u64 = kani::any();
+    let d = any_direction();
+    let i = any_sq();
+    kani::cover!(nbr(i, d).is_none());
+    kani::cover!(nbr(i, d).is_some());
+    assert!(bit(influenced_squares(x), i) == any_dir(|e| match nbr(i, e) { Some(j) => bit(x, j), None => false }), "influenced_squares");
+    assert!(bit(shift_pieces_in_direction(x, &d), i) == match nbr(i, opp_dir(d)) { Some(j) => bit(x, j), None => false }, "shift_pieces_in_direction");
+    assert!(bit(shift_pieces_in_opp_direction(x, &d), i) == match nbr(i, d) { Some(j) => bit(x, j), None => false }, "shift_pieces_in_opp_direction");
+    let pb = any_board_raw();
+    assert!(bit(can_move_in_direction(&d, &pb), i) == match nbr(i, d) { Some(j) => !bit(pb.all_pieces, j), None => false }, "can_move_in_direction");
+    if let Some(j) = nbr(i, d) {
+        assert!(shift_in_direction(1u64 << i, &d) == 1u64 << j, "shift_in_direction on a single bit");
+        assert!(shift_piece_in_direction(x, 1u64 << i, &d) == if bit(x, i) { (x & !(1u64 << i)) | (1u64 << j) } else { x }, "shift_piece_in_direction");
+    }
+}
+// @obl props=C01,C09,C10,C19 tier=quick kind=harness-contract mem=2 est=5
+// @fns GameState::curr_player_piece_mask GameState::opponent_piece_mask GameState::invalid_rabbit_moves GameState::lesser_pieces GameState::is_their_piece piece_type_at_bit PieceBoardState::piece_type_at_square
+// @clause requires board_wf ensures the masks equal their at()-based definitions per square; piece_type_at_bit/at_square == type of at(pb,i) (fall-through Cat arm only for cats); is_their_piece <=> owner != mover
+#[kani::proof]
+fn k_masks() {
+    let side: bool = kani::any();
+    let gs = lean_state(side);
+    let pb = any_wf_board();
+    let i = any_sq();
+    let d = any_direction();
+    let p = any_piece();
+    kani::cover!(at(&pb, i).is_some());
+    let a = at(&pb, i);
+    assert!(bit(gs.curr_player_piece_mask(&pb), i) == match a { Some((_, g)) => g == side, None => false }, "curr_player_piece_mask");
+    assert!(bit(gs.opponent_piece_mask(&pb), i) == match a { Some((_, g)) => g != side, None => false }, "opponent_piece_mask");
+    assert!(bit(gs.invalid_rabbit_moves(&d, &pb), i) == (d == backward(side) && a == Some((Piece::Rabbit, side))), "invalid_rabbit_moves");
+    assert!(bit(gs.lesser_pieces(p, &pb), i) == match a { Some((t, _)) => strength(t) < strength(p), None => false }, "lesser_pieces");
+    assert!(pb.piece_type_at_square(&sq(i)) == a.map(|(t, _)| t), "piece_type_at_square");
+    if let Some((t, g)) = a {
+        assert!(piece_type_at_bit(1u64 << i, &pb) == t, "piece_type_at_bit");
+        assert!(gs.is_their_piece(1u64 << i, &pb) == (g != side), "is_their_piece");
+    }
+    // the derived order on Piece that the engine compares with is the strength order
+    let q = any_piece();
+    assert!((p > q) == (strength(p) > strength(q)), "Piece: derived Ord == strength order");
+}
+// @obl props=C04,C19 tier=quick kind=contract mem=2 est=20
+// @uses GameState::rabbit_at_goal
+// @fns GameState::rabbit_at_goal
+// @clause requires board_wf ensures r == (rabbit of the player who just moved on its goal rank (8 for Gold, 1 for Silver; all 8 files) -> that player; else rabbit of the mover on its goal rank -> mover; else None)
+#[kani::proof_for_contract(GameState::rabbit_at_goal)]
+fn k_rabbit_at_goal() {
+    let gs = lean_state(kani::any());
+    let pb = any_board_raw();
+    kani::cover!(board_wf(&pb));
+    gs.rabbit_at_goal(&pb);
+}
+// @obl props=C04,C19 tier=quick kind=contract mem=2 est=20
+// @uses GameState::lost_all_rabbits
+// @fns GameState::lost_all_rabbits
+// @clause requires board_wf ensures r == (mover has no rabbit -> player who just moved wins; else that player has none -> mover wins; else None)
+#[kani::proof_for_contract(GameState::lost_all_rabbits)]
+fn k_lost_all_rabbits() {
+    let gs = lean_state(kani::any());
+    let pb = any_board_raw();
+    kani::cover!(board_wf(&pb));
+    gs.lost_all_rabbits(&pb);
+}
+
 // ===========================================================================
 // C02  PieceBoard::take_action : a step moves one piece one square and captures
 //      exactly the unsupported trap pieces
